@@ -367,9 +367,10 @@ class Theory:
         self.t = t = T(I)
         I.T = t
         I.view_hook = t.view_hook
-        from . import dist, incr
+        from . import dist, incr, static_lang
         dist.install(I)
         incr.install(I)
+        static_lang.install(I)
 
         # observational meaning of concrete choice-map nodes when they flow into abstract callees (C17 lemmas):
         #   Static({})                      is the empty map
